@@ -4,7 +4,8 @@
 // precedence level they need and produce); a family of period 1 or 2 nests n wrappers around an atom
 // (parentheses are inserted where the grammar requires them). Every family is run well formed,
 // truncated and with a wrong token planted, on a ladder of sizes; the work measure is the number of
-// heap allocations during tokenize + parse.
+// heap allocations during tokenize + parse. A second sweep does the same for long definition groups
+// whose members refer to each other along many paths (reference graphs by offset sets).
 use crate::{
     alloc_count::allocations,
     bind::guard,
@@ -254,6 +255,137 @@ fn ladder_sweep(tier: Tier) -> Sweep {
     })
 }
 
+// Definition groups as reference graphs: n definitions d0 .. d(n-1); definition i mentions d(i+o) for
+// every offset o of the family's offset set that stays in range. Three kind patterns (all lambdas;
+// a non-value head followed by lambdas; all non-values), every non-empty offset set within
+// { -2, -1, +1, +2, +3 }, the body either d0 or the last definition, three variants.
+const OFFSETS: [i64; 5] = [-2, -1, 1, 2, 3];
+const KIND_PATTERNS: [&str; 3] = ["all-lambdas", "non-value-head-then-lambdas", "all-non-values"];
+const GROUP_VARIANTS: [&str; 3] = ["complete", "last-token-dropped", "wrong-token-at-1/2"];
+
+fn group_program(kinds: usize, offsets: usize, body_last: bool, n: usize) -> Vec<String> {
+    let mut t: Vec<String> = vec![];
+    for i in 0..n {
+        let mut mentions: Vec<String> = vec![];
+        for (b, o) in OFFSETS.iter().enumerate() {
+            let j = i as i64 + o;
+            if offsets & (1 << b) != 0 && j >= 0 && (j as usize) < n {
+                mentions.push(format!("d{j}"));
+            }
+        }
+        let lambda = match kinds {
+            0 => true,
+            1 => i > 0,
+            _ => false,
+        };
+        t.push(format!("d{i}"));
+        t.push("=".to_owned());
+        if lambda {
+            t.extend(["(", "p", "=>"].map(str::to_owned));
+            t.push("p".to_owned());
+            for m in &mentions {
+                t.push("+".to_owned());
+                t.push(m.clone());
+                t.push("p".to_owned());
+            }
+            t.push(")".to_owned());
+        } else {
+            t.push("1".to_owned());
+            for m in &mentions {
+                t.push("+".to_owned());
+                t.push(m.clone());
+                if kinds == 1 {
+                    t.push("7".to_owned());
+                }
+            }
+        }
+        t.push(";".to_owned());
+    }
+    t.push(if body_last { format!("d{}", n - 1) } else { "d0".to_owned() });
+    t
+}
+
+fn group_sweep(tier: Tier) -> Sweep {
+    let max_n = tier.pick(256, 2048);
+    let cap_s = tier.pick(8.0, 40.0);
+    let describe = |idx: u64| {
+        let v = idx as usize % 3;
+        let body_last = (idx / 3) % 2 == 1;
+        let offsets = ((idx / 6) % 31 + 1) as usize;
+        let kinds = (idx / 6 / 31) as usize;
+        (v, body_last, offsets, kinds)
+    };
+    Sweep::new(
+        "definition groups as reference graphs, ladder of sizes",
+        3 * 2 * 31 * 3,
+        move |idx| {
+            let (v, body_last, offsets, kinds) = describe(idx);
+            count!("evaluations");
+            count!("group_families_x_variants");
+            let name = |n: usize| format!("definition group {} offsets {:?} body {} {} n={n}", KIND_PATTERNS[kinds], OFFSETS.iter().enumerate().filter(|(b, _)| offsets & (1 << b) != 0).map(|(_, o)| *o).collect::<Vec<_>>(), if body_last { "last" } else { "first" }, GROUP_VARIANTS[v]);
+            let mut n = 1;
+            while n <= max_n {
+                let mut toks = group_program(kinds, offsets, body_last, n);
+                match v {
+                    1 => {
+                        toks.pop();
+                    }
+                    2 => {
+                        let m = toks.len() / 2;
+                        toks[m] = "}".to_owned();
+                    }
+                    _ => {}
+                }
+                let text = toks.join(" ");
+                count!("rungs");
+                crate::infra::max_named("max.group_tokens", toks.len() as u64);
+                match measure(&text) {
+                    Err(m) => {
+                        violation("parse-panic", &name(n), "no panic", &m);
+                        return;
+                    }
+                    Ok((work, secs, accepted)) => {
+                        if accepted {
+                            count!("groups_accepted");
+                        } else {
+                            count!("groups_rejected");
+                        }
+                        if secs > cap_s {
+                            violation("time-cap", &format!("{} ({} tokens)", name(n), toks.len()), &format!("tokenize+parse within {cap_s} s"), &format!("{secs:.1} s, {work} allocations"));
+                            return;
+                        }
+                        let t = toks.len() as u64;
+                        if t >= 100 {
+                            crate::infra::max_named("max.group_work_per_token_squared_x1000", (work as f64 * 1000.0 / (t * t) as f64) as u64);
+                        }
+                        if work > 40 * t * t + 200_000 {
+                            violation("work-envelope", &format!("{} ({t} tokens)", name(n)), "allocations <= 40 * tokens^2 + 200000", &format!("{work} allocations"));
+                            return;
+                        }
+                    }
+                }
+                n *= 2;
+            }
+            count!("nontrivial");
+            if idx % 97 == 0 {
+                let s = group_program(kinds, offsets, body_last, 4).join(" ");
+                crate::infra::sample("group(n=4)", || json!({"family": name(4), "text": s}));
+            }
+        },
+        move |idx| {
+            let (v, body_last, offsets, kinds) = describe(idx);
+            format!("group family kinds={} offsets-mask={offsets} body_last={body_last} variant={} e.g. n=4: {}", KIND_PATTERNS[kinds], GROUP_VARIANTS[v], group_program(kinds, offsets, body_last, 4).join(" "))
+        },
+    )
+    .with_timeout(tier.pick(20, 200))
+    .with_post_abort(|_idx, kind| AbortVerdict::Violation {
+        sub: "no-termination-within-cap".to_owned(),
+        input: String::new(),
+        expected: "every rung of the ladder finishes within the cap".to_owned(),
+        actual: format!("worker ended abnormally: {kind}"),
+    })
+}
+
 impl Prop for C17 {
     fn id(&self) -> &'static str {
         "C17"
@@ -262,12 +394,12 @@ impl Prop for C17 {
         2048
     }
     fn sweeps(&self, tier: Tier) -> Vec<Sweep> {
-        vec![ladder_sweep(tier)]
+        vec![ladder_sweep(tier), group_sweep(tier)]
     }
     fn evidence(&self, tier: Tier) -> EvidenceSpec {
         EvidenceSpec {
             level: "exploration",
-            rule: "all input families of period 1 and 2 over 28 syntactic wrappers (parentheses, sums left/right, differences, negation, products, application left/right, comparison, let / annotated let / let nested in a definition, if nested in the else / then / condition position, the four lambda forms and the annotation position, pi, arrows left/right, and application / sum / product chains ending in two parenthesised operands nested through either of them), i.e. 28 + 756 families, each in 8 variants (well formed; suffix dropped; last 1, 2, 3 tokens dropped; a wrong token planted at 1/4, 1/2, 3/4), on the ladder n = 1, 2, 4, .., 512 (quick) / 8192 (thorough); the real tokenize+parse is run on a 2 GiB stack and its heap allocations counted; every rung must finish within the cap, every rung must satisfy allocations <= 40 tokens^2 + 200000 (measured on the unchanged tree: <= 2 tokens^2), and well-formed variants must satisfy work(2n) <= 6 work(n) from n >= 64 (measured: 2.00). evaluations = families x variants; non-trivial = those whose whole ladder was measured".to_owned(),
+            rule: "all input families of period 1 and 2 over 28 syntactic wrappers (parentheses, sums left/right, differences, negation, products, application left/right, comparison, let / annotated let / let nested in a definition, if nested in the else / then / condition position, the four lambda forms and the annotation position, pi, arrows left/right, and application / sum / product chains ending in two parenthesised operands nested through either of them), i.e. 28 + 756 families, each in 8 variants (well formed; suffix dropped; last 1, 2, 3 tokens dropped; a wrong token planted at 1/4, 1/2, 3/4), on the ladder n = 1, 2, 4, .., 512 (quick) / 8192 (thorough); the real tokenize+parse is run on a 2 GiB stack and its heap allocations counted; every rung must finish within the cap, every rung must satisfy allocations <= 40 tokens^2 + 200000 (measured on the unchanged tree: <= 2 tokens^2), and well-formed variants must satisfy work(2n) <= 6 work(n) from n >= 64 (measured: 2.00). Second sweep, long definition sequences as reference graphs: groups of n = 1, 2, 4, .., 256 (quick) / 2048 (thorough) definitions where definition i mentions d(i+o) for every o of an offset set, for all 31 non-empty offset sets within {-2,-1,+1,+2,+3}, three kind patterns (all lambdas; a non-value head then lambdas; all non-values), body d0 or the last definition, three variants (complete, last token dropped, wrong token in the middle) — 558 families x variants under the same time cap and envelope (measured: <= 0.7 tokens^2). evaluations = families x variants; non-trivial = those whose whole ladder was measured".to_owned(),
             assumptions: vec![
                 "a growth law on a finite ladder is evidence of the law, not a proof for all n".to_owned(),
                 "heap allocations are proportional to parse-function executions (every constructed term, cache insert and error closure allocates)".to_owned(),
@@ -279,7 +411,7 @@ impl Prop for C17 {
             traces: None,
             exhaustive: true,
             bounds: json!({"max_n": tier.pick(512, 8192), "time_cap_s": tier.pick(8.0, 40.0), "wellformed_growth_factor": 6, "envelope": "40*T^2+200000"}),
-            minimums: vec![("wellformed_accepted", 5000), ("malformed_rejected", 10_000), ("rungs", 40_000)],
+            minimums: vec![("wellformed_accepted", 5000), ("malformed_rejected", 10_000), ("rungs", 40_000), ("group_families_x_variants", 558), ("groups_accepted", 500), ("groups_rejected", 500)],
         }
     }
 }
